@@ -85,7 +85,7 @@ SIGMA = ['a', '1', ' ', '"', "'", '\\', '(', ')', '\n', '\t', 'é', ';', '{', '}
 # role of a character in the quoting / escaping rules of CSS; the essential set of a string / URL finding is a set of roles
 ROLE = {
     'a': 'plain', '1': 'plain', 'é': 'plain', ' ': 'blank', '\t': 'blank', '"': 'dquote', "'": 'squote', '\\': 'backslash',
-    '(': 'paren', ')': 'paren', '\n': 'linebreak', ';': 'punctuation', '{': 'punctuation', '}': 'punctuation', '/': 'punctuation',
+    '(': 'paren', ')': 'paren', '\n': 'linebreak', '\r': 'linebreak', '\f': 'linebreak', ';': 'punctuation', '{': 'punctuation', '}': 'punctuation', '/': 'punctuation',
     '*': 'punctuation', ',': 'punctuation', '-': 'punctuation',
 }
 ROLES = ['backslash', 'dquote', 'squote', 'linebreak', 'blank', 'paren', 'punctuation']
@@ -1013,6 +1013,10 @@ def run_shard(shard, tier, seed):
                     for form in ('dq-hex', 'sq-hex'):
                         evaluate(res, {'family': 'string', 'comps': [['str', content, form]], 'seps': []}, 2)
                     evaluate(res, {'family': 'url', 'comps': [['url', content, 'dq-hex']], 'seps': []}, 2)
+            # the other two line breaks of CSS (the alphabet of the string / URL products has the line feed only)
+            for content in ('a\ra', '\ra', 'a\r', 'a\fa', '\fa', 'a\f', '\r', '\f', 'a\r\na', 'a\r a'):
+                for case in _str_cases(content):
+                    evaluate(res, case, 2)
             # delimiters of the unquoted form written as hexadecimal escapes are content, at the edges too
             for content in BARE_HEX_CONTENTS:
                 evaluate(res, {'family': 'url', 'comps': [['url', content, 'bare-hex']], 'seps': []}, 2)
